@@ -104,7 +104,7 @@ func genScenario(target string) func(t *rapid.T) Scenario {
 		sc := Scenario{Target: target, Cap: rapid.SampledFrom([]int{0, 1, 2, 3, 8, 16, 16, 20}).Draw(t, "cap")}
 		kinds := []string{"set", "set", "add", "add", "setstr", "addstr", "setuint", "adduint", "setcf", "setobserve", "setaccept", "remove", "remove", "setpath", "resetto", "clone"}
 		if target == "pool" {
-			kinds = append(kinds, "setetag", "addetag", "addquery", "reset", "recycle")
+			kinds = append(kinds, "setetag", "addetag", "addquery", "reset", "recycle", "resetself", "cloneself")
 		} else {
 			kinds = append(kinds, "setlocpath")
 		}
